@@ -56,7 +56,7 @@ def _parse_sid(text):
 
 @parse.with_pattern(r"a\d+")
 def _parse_asid(text):
-    return text
+    return text.upper()      # a converter whose result is a string DIFFERENT from the matched text ("a12" -> "A12")
 
 
 @parse.with_pattern(r"b\d+")
@@ -115,6 +115,7 @@ class RunLab(object):
                 state.in_async_with_timeout = False
 
         def step_async(context, sid, rest):
+            sid = sid.lower()
             (async_with_timeout if int(sid[1:]) % 2 else async_plain)(context, sid, rest)
 
         def step_bad(context, sid, rest):      # never reached: the converter raises first
